@@ -6,7 +6,9 @@ import threading
 import common
 
 META = {
-    "level_text": ("The cleared-orders path recovers the order id with the blotter module's own (regenerated) hash length, for every separator, and attaches the "
+    "level_text": ("The bet-id step that follows the lookup by reference never hands an update to an order of another bet (update_never_misattributed; "
+                   "pickByBet is compared with every such decision of the live histories). "
+                   "The cleared-orders path recovers the order id with the blotter module's own (regenerated) hash length, for every separator, and attaches the "
                    "cleared order to exactly the order the reference was built for (cleared_attaches_to_its_order). "
                    "Theorems (Lean 4, for every input): the separator check accepts exactly the one-character strings of the exchange's set and the "
                    "setter leaves the old separator on refusal (so the separator is valid in every reachable state); a reference hash+sep+id is at "
